@@ -725,7 +725,7 @@ class Machine:
         m = re.match(r"^(-?\d+)_(\w+)$", s)
         if m and m.group(2) in BITS:
             return I(int(m.group(1)), m.group(2))
-        m = re.match(r"^(\w+)::(MIN|MAX)$", s)
+        m = re.match(r"^(?:core::num::<impl )?(\w+)>?::(MIN|MAX)$", s)
         if m and m.group(1) in BITS:
             t = m.group(1)
             b = BITS[t]
